@@ -19,3 +19,13 @@ void h_counting(void) { MK_INSTANCE struct instr *I; unsigned *p; int *d; int rc
 void h_fitting(void) { MK_INSTANCE struct instr *I; unsigned *p; unsigned p0;
   int rc = assemble_with_chunk_fitting(a, I, p);
   if (rc == EXIT_SUCCESS) REACH("fitting success"); else REACH("fitting failure"); }
+
+/* the loop-level step contracts (contracts/loop_contracts.h, chunk size FREE: they carry frames and bounds, no chunk
+ * arithmetic) proved on the real bodies; their usage forms are what the line loop of assemble_all is proved against */
+#include "loop_contracts.h"
+void h_assemble_l(void) { assemblyline_t a; struct instr *I; unsigned *p; int rc = assemble(a, I, p);
+  if (rc == EXIT_SUCCESS) REACH("success"); else REACH("failure"); }
+void h_counting_l(void) { assemblyline_t a; struct instr *I; unsigned *p; int *d; int rc = assemble_counting_chunks(a, I, p, d);
+  if (rc == EXIT_SUCCESS) REACH("success"); else REACH("failure"); }
+void h_fitting_l(void) { MK_INSTANCE struct instr *I; unsigned *p; int rc = assemble_with_chunk_fitting(a, I, p);   /* chunk size literal: division by a symbolic one does not close */
+  if (rc == EXIT_SUCCESS) REACH("success"); else REACH("failure"); }
